@@ -68,4 +68,27 @@ def modifyAt (f : Node G V → Node G V) : List Nat → Node G V → Node G V
   | i :: rest, mk o cs => mk o (cs.mapIdx fun j c => if j = i then modifyAt f rest c else c)
 
 end Node
+
+/-- one user-level operation of a history, addressed to a node of the tree -/
+inductive Op (G V : Type) where
+  | move (addr : List Nat) (inp : PathIn V) (start : Option Int)
+  | rotate (addr : List Nat) (rot : PathIn G) (anchor : Option (PathIn V)) (start : Option Int)
+  | setPos (addr : List Nat) (inp : List V)
+  | setOri (addr : List Nat) (inp : List G)
+  | reset (addr : List Nat)
+  /-- any call the input validators reject (malformed displacement / anchor / start / rotation …) -/
+  | rejected
+
+/-- the state machine of histories: accepted operations act through the functions above,
+rejected ones (including the empty position / orientation path, which the validators refuse)
+leave the state as it is. -/
+def Node.step {G V : Type} [Mul G] [Inv G] [One G] [SMul G V] [Add V] [Sub V] [Zero V]
+    (t : Node G V) : Op G V → Node G V
+  | .move a inp start => Node.modifyAt (Node.move inp start) a t
+  | .rotate a rot anchor start => Node.modifyAt (Node.rotate rot anchor start none) a t
+  | .setPos a inp => if inp.isEmpty then t else Node.modifyAt (Node.setPosition inp) a t
+  | .setOri a inp => if inp.isEmpty then t else Node.modifyAt (Node.setOrientation inp) a t
+  | .reset a => Node.modifyAt Node.resetPath a t
+  | .rejected => t
+
 end MagpyVerif
